@@ -38,7 +38,7 @@ Lemma tie_ready_wait q now g0 g1 gs :
 Proof. intros Hq H. unfold async_ready_body. rewrite Hq. cbn [sop_apply site_oq_ready_wait] in H. rewrite H. cbn [fst snd q_groups]. split; reflexivity. Qed.
 
 Definition sites_C12_ops : Prop :=
-  site_oq_ready_many = Sgt /\ site_oq_ready_many_rhs = 1 /\
+  sites_found_C12 = true /\ site_oq_ready_many = Sgt /\ site_oq_ready_many_rhs = 1 /\
   ncmp_handlers_multicast_outgoing_queue_MulticastOutgoingQueue_async_add = 1 /\
   ncmp_handlers_multicast_outgoing_queue_MulticastOutgoingQueue_async_ready = 3 /\
   ncmp_handlers_query_handler_QueryResponse_has_mcast_record_in_last_second = 1.
